@@ -40,6 +40,9 @@ func (x *Exec) simpleBranch(b, join *ssa.BasicBlock, li *loopInfo) bool {
 // tryMergeDiamond handles `if c goto T else F` where T (and optionally F) are simple blocks that
 // rejoin at the same block. Returns true if it advanced the state to the join block.
 func (x *Exec) tryMergeDiamond(s *State, fr *Frame, c *Term, tb, fb *ssa.BasicBlock) bool {
+	if sp := x.w.FuncSpecs[fnKey(fr.fn)]; sp != nil && sp.NoMerge {
+		return false
+	}
 	li := x.loopsOf(fr.fn)
 	var join *ssa.BasicBlock
 	switch {
